@@ -202,6 +202,11 @@ fn translate_select_pipeline(
     let (fetch, limit) = if ctx.dialect.use_fetch() {
         (limit.map(|l| fetch_of_i64(l, ctx)), None)
     } else {
+        // Some dialects (e.g. SQLite) have no OFFSET without a LIMIT
+        let limit = match (limit, &offset) {
+            (None, Some(_)) => ctx.dialect.limit_for_bare_offset(),
+            (limit, _) => limit,
+        };
         (None, limit.map(expr_of_i64))
     };
 
